@@ -120,7 +120,14 @@ long sendto_hook(int fd, const void *, unsigned long len, int dstport)
 {
   if(tl_tid >= 0) { Pending p; p.k = PIPE_SEND; p.fd = fd; park(p); }
   int dstfd = dstport - vos::PORT_BASE_FD + vos::VFD_BASE;
-  if(dgrams.count(dstfd)) { dgrams[dstfd]++; vos::log(30, {tl_tid, PIPE_SEND, dstfd, dgrams[dstfd]}); return static_cast<long>(len); }
+  if(dgrams.count(dstfd)) {
+    dgrams[dstfd]++;
+    vos::log(30, {tl_tid, PIPE_SEND, dstfd, dgrams[dstfd]});
+    // a second schedule point AFTER the wake-up datagram is out: whatever the caller does next (set a flag, take a mutex) can
+    // be overtaken by the driver, which may already have been woken by it
+    if(tl_tid >= 0) { Pending q; q.k = YIELD; park(q); }
+    return static_cast<long>(len);
+  }
   // asynchronous UDP datagram: accepted as a whole
   vos::log(30, {tl_tid, OTHER_IO, fd, static_cast<long long>(len), dstport - vos::PORT_BASE_SYM});
   return static_cast<long>(len);
